@@ -7,6 +7,7 @@ CONSTANTS
   MaxSize = 0
   Void = FALSE
   AllowDestroy = FALSE
+  AllowThrow = FALSE
 INVARIANTS TypeOK NeverBothNonEmpty ExactlyOnceDelivery DeliveredInOrder ItemsSorted WaitersFIFO NoLostWaiter DestroyCancels
 PROPERTY AllResolved
 CHECK_DEADLOCK FALSE
